@@ -29,6 +29,10 @@ func main() {
 		replayMain(os.Args[2:])
 	case "gen":
 		genMain(os.Args[2:])
+	case "conc":
+		concMain(os.Args[2:])
+	case "sched":
+		schedMain(os.Args[2:])
 	case "hist":
 		histMain(os.Args[2:])
 	case "selftest":
